@@ -26,6 +26,7 @@
 '''IMSC style properties'''
 
 import inspect
+import re
 import math
 import typing
 import ttconv.imsc.namespaces as xml_ns
@@ -1003,9 +1004,11 @@ class StyleProperties:
 
       shadows = []
 
-      for shadow in xml_attrib.split(","):
+      # shadows are separated by commas, which also appear within rgb() and rgba() color functions
 
-        cs = shadow.split()
+      for shadow in re.split(r",(?![^(]*\))", xml_attrib):
+
+        cs = re.split(r"\s+(?![^(]*\))", shadow.strip())
 
         if len(cs) < 2 or len(cs) > 4:
           raise ValueError("Invalid Syntax")
